@@ -122,3 +122,117 @@ Definition run_line (line : string) : string :=
   | _ :: kind :: _ => if seqb kind "P" then run_parse_case line else run_case line
   | _ => "?|X bad-line"%string
   end.
+
+(* ---- extension-call cases (C20):
+   id|X|<name hex>|<param tokens>|<variadic>|<nout>|<second is error>|<undef handler>|<ctx handler>|<mode>|<ctx>|<args ';'-separated>
+   -> REJECT | U | E argcount S.. | E argtype S.. k | CALL <converted args> -> <outcome>        *)
+From JV Require Import Model.Process.
+
+Definition gtype_of_token (t : string) : option gtype :=
+  if seqb t "f64" then Some GFloat else if seqb t "int" then Some GInt else if seqb t "u8" then Some GUint8
+  else if seqb t "str" then Some GString else if seqb t "bool" then Some GBool else if seqb t "bytes" then Some GBytes
+  else if seqb t "iface" then Some GIface else if seqb t "value" then Some GValue else if seqb t "slice" then Some GSliceIface
+  else if seqb t "map" then Some GMapIface else if seqb t "fn" then Some GCallable else None.
+Definition gparam_of_token (t : string) : option gparam :=
+  if sprefix "opt:" t then option_map GOpt (gtype_of_token (sdrop 4 t))
+  else option_map GP (gtype_of_token t).
+
+Definition underscore (s : string) : string :=
+  string_of_list (map (fun c => if Ascii.eqb c " " then "_"%char else c) (list_of_string s)).
+
+Fixpoint carg_enc (c : carg) : string :=
+  match c with
+  | AVal None => "nil"
+  | AVal (Some v) => "v(" ++ underscore (value_to_wire v) ++ ")"
+  | AStr s => "s:" ++ hex_of_string s
+  | AInt z => "i:" ++ string_of_Z z
+  | AFloat x => "f:" ++ hex16_of_Z (bits_of_f x)
+  | ABool b => if b then "b:T" else "b:F"
+  | AFun _ => "fn"
+  | AOpt None => "opt-"
+  | AOpt (Some a) => "opt(" ++ carg_enc a ++ ")"
+  | AOther => "other"
+  end%string.
+
+Definition ovalue_of_wire (w : string) : option ovalue :=
+  if seqb w "U" then Some None else option_map Some (value_of_wire w).
+
+Definition run_ext_case (line : string) : string :=
+  match fields line with
+  | id :: _ :: namehex :: ptoks :: variadic :: nout :: errsecond :: undefh :: ctxh :: mode :: ctxw :: argsw :: _ =>
+      let out :=
+        match string_of_hex namehex, nat_of_dec nout, ovalue_of_wire ctxw with
+        | Some name, Some no, Some ctx =>
+            let params := map gparam_of_token (tokens ptoks) in
+            let args := map ovalue_of_wire (if seqb argsw "" then [] else ssplit_char ";" argsw) in
+            if forallb (fun o => match o with Some _ => true | None => false end) params
+               && forallb (fun o => match o with Some _ => true | None => false end) args then
+              let shape := mkShape (somes params) (seqb variadic "T") no (seqb errsecond "T") in
+              if negb (valid_shape shape && valid_name name) then "REJECT"%string else
+              let sg := mkSig (somes params) (seqb variadic "T")
+                              (if seqb undefh "arg0" then UArg0 else UNone)
+                              (if seqb ctxh "argc0" then CArgc0 else if seqb ctxh "argc1" then CArgc1 else CNone) in
+              match prepare_call sg ctx (somes args) with
+              | PrepUndefined => "U"%string
+              | PrepArgCount => ("E argcount " ++ String "S" (hex_of_string name))%string
+              | PrepArgType k => ("E argtype " ++ String "S" (hex_of_string name) ++ " " ++ string_of_nat k)%string
+              | PrepArgs cs =>
+                  ("CALL " ++ sjoin " " (map carg_enc cs) ++ " -> "
+                   ++ (if seqb mode "ok" then "V S52" else if seqb mode "undef" then "U" else "E lib"))%string
+              end
+            else "X bad-ext-case"%string
+        | _, _, _ => "X bad-ext-case"%string
+        end in
+      (id ++ "|" ++ out)%string
+  | _ => "?|X bad-line"%string
+  end.
+
+(* ---- registry histories (C20, C05):  id|H|op;op;…  ->  obs;obs;…
+   ops:  G:name=b,name=b:T|F   C:src   E:e:name=b,…:T|F   R:e:name                             *)
+Definition parse_vals (s : string) : list (string * binding) :=
+  somes (map (fun kv => match split_eq kv with
+                        | Some (k, v) => match nat_of_dec v with Some n => Some (k, n) | None => None end
+                        | None => None end)
+             (if seqb s "" then [] else ssplit_char "," s)).
+(* R and E/C share arities: dispatch on the tag first *)
+Definition parse_op' (s : string) : option op :=
+  match ssplit_char ":" s with
+  | k :: rest =>
+      if seqb k "G" then match rest with [vals; ok] => Some (OpRegisterGlobal (parse_vals vals) (seqb ok "T")) | _ => None end
+      else if seqb k "C" then match rest with [a] => option_map OpCompile (nat_of_dec a) | _ => None end
+      else if seqb k "E" then match rest with
+                              | [e; vals; ok] => option_map (fun n => OpRegisterExpr n (parse_vals vals) (seqb ok "T")) (nat_of_dec e)
+                              | _ => None end
+      else if seqb k "R" then match rest with [e; name] => option_map (fun n => OpResolve n name) (nat_of_dec e) | _ => None end
+      else None
+  | [] => None
+  end.
+Definition obs_enc (o : obs) : string :=
+  match o with
+  | ONone => "-"
+  | ORejected => "rej"
+  | ONoSuchExpr => "noexpr"
+  | OResolved (RRegistered b) => "reg" ++ string_of_nat b
+  | OResolved RTime => "time"
+  | OResolved RBuiltin => "builtin"
+  | OResolved RUnbound => "unbound"
+  end%string.
+Definition run_hist_case (line : string) : string :=
+  match fields line with
+  | id :: _ :: opsw :: _ =>
+      let ops := map parse_op' (if seqb opsw "" then [] else ssplit_char ";" opsw) in
+      if forallb (fun o => match o with Some _ => true | None => false end) ops then
+        (id ++ "|" ++ sjoin ";" (map obs_enc (snd (proc_run is_builtin_name proc_init (somes ops)))))%string
+      else (id ++ "|X bad-history")%string
+  | _ => "?|X bad-line"%string
+  end.
+
+Definition run_line_all (line : string) : string :=
+  match fields line with
+  | _ :: kind :: _ =>
+      if seqb kind "P" then run_parse_case line
+      else if seqb kind "X" then run_ext_case line
+      else if seqb kind "H" then run_hist_case line
+      else run_case line
+  | _ => "?|X bad-line"%string
+  end.
